@@ -133,8 +133,15 @@ class Pool:
                 st_["properties"][0].pop("optional")
             else:
                 st_["properties"][0]["optional"] = True
+        # same model, only documentation / since / deprecated texts differ
+        small_a_doc = copy.deepcopy(small_a)
+        for i, decl in enumerate(small_a_doc["structures"] + small_a_doc["enumerations"] + small_a_doc["requests"] + small_a_doc["notifications"]):
+            if i % 3 == 0:
+                decl["documentation"] = (decl.get("documentation") or "") + "\nRevised wording."
+            if i % 7 == 0:
+                decl["since"] = "3.19.0"
         docs: Dict[str, dict] = {"small_a": small_a, "small_b": small_b, "ext": ext, "small_mx": small_mx, "small_a_open": small_a_open,
-                                 "small_a_base": small_a_base}
+                                 "small_a_base": small_a_base, "small_a_doc": small_a_doc}
         if not (quick and plugin in ("dotnet", "testdata")):
             docs["evo1"] = evolved[-1][0]
             if plugin != "testdata":
@@ -148,7 +155,7 @@ class Pool:
         P = lambda n: os.path.join(self.dir, n + ".json")
         self.lists: Dict[str, List[str]] = {
             "small_a": [P("small_a")], "small_b": [P("small_b")], "small_a+ext": [P("small_a"), P("ext")],
-            "small_mx": [P("small_mx")], "small_a_open": [P("small_a_open")], "small_a_base": [P("small_a_base")],
+            "small_mx": [P("small_mx")], "small_a_open": [P("small_a_open")], "small_a_base": [P("small_a_base")], "small_a_doc": [P("small_a_doc")],
         }
         slow = plugin in ("dotnet", "testdata")
         if not (quick and slow):
@@ -327,7 +334,7 @@ def _work(args) -> dict:
                 for kind, tag in (("truncate", 3), ("overwrite", 7), ("owned-pattern", 11)):
                     mach._plant(kind, tag)
                     mach.do_run(a, 1)
-                for key in ("small_a_open", a, "small_a_base", a):   # models that differ only inside shared declarations
+                for key in ("small_a_open", a, "small_a_base", a, "small_a_doc", a):   # models that differ only inside shared declarations
                     mach.do_run(key, 2)
                 mach.do_run(b, 2)
                 for hs in (0, 1, 2, 3, 4, 5):   # hash seeds on the name-inventing model
@@ -341,7 +348,7 @@ def _work(args) -> dict:
         if shard == 1:
             # in-process history: the same model generated before and after other models within one process
             from .c19 import in_child
-            order = ["small_a", "small_a_open", "small_a", "small_a_base", "small_a", "small_mx", "small_b", "small_a_base", "small_mx"]
+            order = ["small_a", "small_a_open", "small_a", "small_a_base", "small_a", "small_a_doc", "small_mx", "small_b", "small_a_base", "small_mx"]
             res = in_child(child_inprocess, plugin, pool.lists, order, timeout=900)
             if res is not None:
                 mref = M()
